@@ -71,15 +71,23 @@ def make(E, cfg):
     raise ValueError(wrapper)
 
 
-def sym_query(E, name, lo, hi, default_a, default_b, grid=None):
+def sym_query(E, name, lo, hi, default_a, default_b, grid=None, min_len=None):
     """symbolic (ta, tb) with lo <= ta < tb <= hi.  grid: (ndigits) -> constrain to the rounding grid ('resolved times')"""
     if grid is None:
         a = E.input(name + 'a', default_a); b = E.input(name + 'b', default_b)
     else:
+        # resolved (grid) times: a bounded integer number of grid units, case-split through the solver so that every time on
+        # the path is a constant (the rounding arithmetic then stays exact and cheap)
         scale = 10 ** grid
-        ka = E.input_int(name + 'ka', int(default_a * scale)); kb = E.input_int(name + 'kb', int(default_b * scale))
-        a = ka / scale; b = kb / scale
+        klo, khi = int(lo.v * scale), int(hi.v * scale)
+        ka = E.input_int(name + 'ka', min(max(int(default_a * scale), klo), khi), lo=klo, hi=khi)
+        kb = E.input_int(name + 'kb', min(max(int(default_b * scale), klo), khi), lo=klo, hi=khi)
+        E.assume(ka < kb)
+        ka = E.concretize_int(ka, klo, khi); kb = E.concretize_int(kb, klo, khi)
+        return ka / scale, kb / scale
     E.assume((a >= lo) & (b <= hi) & (a < b))
+    if min_len is not None:
+        E.assume(b - a >= min_len)
     return a, b
 
 
@@ -98,13 +106,22 @@ def flat(x):
     return list(x.sym.reshape(-1))
 
 
+_RF_MEMO = {}
+
+
 def prove_eq(E, what, lhs, rhs):
-    """lhs == rhs for all inputs on this path.  Structural identity first, then z3 with sqrt symbols left free,
-    then with their defining equations."""
+    """lhs == rhs for all inputs on this path.
+    1. structural identity;  2. square roots eliminated algebraically (r*r -> radicand), coefficients brought to rational
+    normal form, z3 decides the residual polynomial under the path condition;  3. z3 on the raw terms with the square-root
+    symbols left free (short timeout);  4. z3 with the defining equations of the square roots."""
     if lhs is rhs:
         return True
     pcs = E.path_constraints()
-    # 1) eliminate square roots algebraically (r*r -> radicand) and decide each coefficient of the normal form
+    claim = Node('eq', lhs, rhs)
+    side = []
+    zc = dag.to_z3(claim, E.zenv, E.zmemo, side)
+    has_sqrt = any(k == 'sqrt' for k, _ in side)
+    # 2) eliminate square roots algebraically and decide each coefficient of the normal form
     try:
         nf = dag.sqrt_normal(dag._sub(lhs, rhs))
     except NotImplementedError:
@@ -114,16 +131,17 @@ def prove_eq(E, what, lhs, rhs):
         for mono, c in nf.items():
             if c is dag.ZERO:
                 continue
-            side = []
+            side2 = []
             try:
-                num, den = dag.to_ratfun(c)
-                # residual polynomial identity num == 0 (denominators are non-zero on the path: the concrete run divided by them)
-                zc = num.to_z3(E.zenv) == 0
-                side = [('den', den.to_z3(E.zenv) != 0)] if den.as_const() is None else []
+                if len(_RF_MEMO) > 30000:
+                    _RF_MEMO.clear()
+                num, D = dag.to_ratfun(c, _RF_MEMO)
+                zc2 = num.to_z3(E.zenv) == 0
+                side2 = [('den', dag._FACTORS[k].to_z3(E.zenv) != 0) for k in D]
             except NotImplementedError:
-                zc = dag.to_z3(Node('eq', c, dag.ZERO), E.zenv, E.zmemo, side)
+                zc2 = dag.to_z3(Node('eq', c, dag.ZERO), E.zenv, E.zmemo, side2)
             s = z3.Solver(); s.set('timeout', E.prove_timeout_ms)
-            s.add(*pcs); s.add(*[cc for _, cc in side]); s.add(z3.Not(zc))
+            s.add(*pcs); s.add(*[cc for _, cc in side2]); s.add(z3.Not(zc2))
             r = E._check(s)
             if r != 'unsat':
                 all_zero = False
@@ -134,25 +152,30 @@ def prove_eq(E, what, lhs, rhs):
                 break
         if all_zero:
             return True
-    # 2) full query: sqrt symbols free first, then with their defining equations
-    claim = Node('eq', lhs, rhs)
-    side = []
-    zc = dag.to_z3(claim, E.zenv, E.zmemo, side)
-    for use_side in (False, True):
-        s = z3.Solver(); s.set('timeout', E.prove_timeout_ms)
-        s.add(*pcs)
-        s.add(*[c for k, c in side if use_side or k != 'sqrt'])
-        s.add(z3.Not(zc))
-        r = E._check(s)
-        if r == 'unsat':
-            return True
-        if use_side or not any(k == 'sqrt' for k, _ in side):
-            if r == 'sat':
-                m = s.model()
-                E.failures.append(symx.Failure(what, 'sat', E.model_inputs(m), _model_str(m), E.stats['paths']))
-            else:
-                E.failures.append(symx.Failure(what, 'unknown', {}, s.reason_unknown(), E.stats['paths']))
-            return False
+    # 3) z3 with the square-root symbols left free
+    s = z3.Solver(); s.set('timeout', min(E.prove_timeout_ms, 10000) if has_sqrt else E.prove_timeout_ms)
+    s.add(*pcs); s.add(*[c for k, c in side if k != 'sqrt']); s.add(z3.Not(zc))
+    r = E._check(s)
+    if r == 'unsat':
+        return True
+    if not has_sqrt:
+        if r == 'sat':
+            m = s.model()
+            E.failures.append(symx.Failure(what, 'sat', E.model_inputs(m), _model_str(m), E.stats['paths']))
+        else:
+            E.failures.append(symx.Failure(what, 'unknown', {}, s.reason_unknown(), E.stats['paths']))
+        return False
+    # 4) full query with the defining equations of the square roots
+    s = z3.Solver(); s.set('timeout', E.prove_timeout_ms)
+    s.add(*pcs); s.add(*[c for _, c in side]); s.add(z3.Not(zc))
+    r = E._check(s)
+    if r == 'unsat':
+        return True
+    if r == 'sat':
+        m = s.model()
+        E.failures.append(symx.Failure(what, 'sat', E.model_inputs(m), _model_str(m), E.stats['paths']))
+    else:
+        E.failures.append(symx.Failure(what, 'unknown', {}, s.reason_unknown(), E.stats['paths']))
     return False
 
 
